@@ -30,6 +30,11 @@ impl Parser {
 
         if !self.parsed_numbers.is_empty() && self.parsed_numbers[0] == 4 {
             for a in OSC_PALETTE.captures_iter(&self.parse_string) {
+                // the index group of the pattern is optional: `;;rgb:..` matches without one
+                if a.get(1).is_none() {
+                    log::error!("OSC 4 color definition without a color index");
+                    continue;
+                }
                 let color = a.get(1).unwrap().as_str().parse::<u32>()?;
                 if color > 255 {
                     log::error!("Invalid color index: {}", color);
